@@ -556,6 +556,17 @@ def replay_case(ctx, rp, add):
         if a and b and b != [0, ''] and a[0] != b:
             ctx.violation(rp['key'], 'preference %r, resolver answers %r: the audit dials %r, the connection rate test dials %r' % (rp['pref'], rp['table'][rp['host']], a[0], b), rp)
         return 1
+    if op == 'port-setter':
+        from ssh_audit.auditconf import AuditConf
+        conf = AuditConf()
+        try:
+            conf.port = rp['port']
+            acc = True
+        except ValueError:
+            acc = False
+        if acc != (1 <= rp['port'] <= 65535):
+            ctx.violation('port-setter/%s' % ('accepts-out-of-range' if acc else 'rejects-valid'), 'AuditConf.port = %d is %s' % (rp['port'], 'accepted' if acc else 'rejected'), rp)
+        return 1
     raise common.CheckError('unknown replay op %r' % (op,))
 
 
@@ -637,6 +648,24 @@ def run(ctx):
             want = ('ok', h, p if p is not None else (22 if d is None else d))
             if r != want:
                 ctx.violation('parse/%s/wrong-endpoint' % kind, 'parse_host_and_port(%r, %r) = %r, the spelling names %r' % (s, d, r, want[1:]), {'op': 'parse', 's': s, 'default': d, 'want': list(want), 'key': 'parse/%s/wrong-endpoint' % kind})
+    # every port value (thorough) / every 37th and the boundaries (quick), implementation side only: spelling -> port, and the
+    # port setter of AuditConf accepts exactly 1..65535
+    from ssh_audit.auditconf import AuditConf
+    sweep = range(0, 65600) if not q else sorted(set(range(0, 65600, 37)) | {0, 1, 2, 21, 22, 23, 65534, 65535, 65536, 65537})
+    for pv in sweep:
+        for kind, h, sp in (('host:port', 'h.example', 'h.example:%d' % pv), ('[v6]:port', '2001:db8::1', '[2001:db8::1]:%d' % pv)):
+            r = impl_parse(sp, 22)
+            if r != ('ok', h, pv):
+                ctx.violation('parse/%s/wrong-endpoint' % kind, 'parse_host_and_port(%r, 22) = %r' % (sp, r), {'op': 'parse', 's': sp, 'default': 22, 'want': ['ok', h, pv], 'key': 'parse/%s/wrong-endpoint' % kind})
+        conf = AuditConf()
+        try:
+            conf.port = pv
+            acc = conf.port == pv
+        except ValueError:
+            acc = False
+        if acc != (1 <= pv <= 65535):
+            ctx.violation('port-setter/%s' % ('accepts-out-of-range' if acc else 'rejects-valid'), 'AuditConf.port = %d is %s' % (pv, 'accepted' if acc else 'rejected'), {'op': 'port-setter', 'port': pv})
+        n_forms_ok += 3
     ctx.evaluations += n_forms_ok
     samples.append({'op': 'parse', 's': '[2001:db8::1]:2222', 'impl': repr(impl_parse('[2001:db8::1]:2222', 22))})
 
@@ -655,7 +684,7 @@ def run(ctx):
     # ---- labels as functions of (host, port) through the real output code is done by the launcher (peer mode) ----
 
     # ---- process_commandline: single target, flags, -p ----
-    n_cli = 400 if q else 12000
+    n_cli = 400 if q else 16000
     for i in range(n_cli):
         sc = gen_cli_scenario(rng, 'refuse')
         arg = sc['arg']
@@ -722,7 +751,7 @@ def run(ctx):
                               {'op': 'rate_resolve', 'table': table, 'host': h, 'pref': pref, 'key': 'rate-test/%s/family-order-ignored' % ''.join(map(str, pref))})
 
         # ---- end-to-end runs of the real command line ----
-        n_run = 600 if q else 20000
+        n_run = 600 if q else 36000
         scs = []
         for i in range(n_run):
             mode = 'peer' if i % 3 == 2 else 'refuse'
